@@ -88,7 +88,9 @@ ApplyStmt(stmt, store) ==
 
 Num(n) == <<48 + n>>
 MStore(n) == [i \in 1..n |-> SP(<<107, 48 + i>>, IF i % 2 = 1 THEN Num(i) ELSE <<118, 49>>)]
-MStores == {MStore(0), MStore(3), MStore(7)}
+Call1(f, x) == ACall(f, <<x>>)
+BigStore == [i \in 1..70 |-> SP(<<107>> \o (IF i < 10 THEN <<48>> ELSE <<>>) \o IntText(i), IF i % 3 = 0 THEN <<118, 49>> ELSE Num(i % 10))]
+MStores == IF MaxPairs >= 3 THEN {MStore(0), MStore(1), MStore(3), MStore(7), BigStore} ELSE {MStore(0), MStore(3), MStore(7)}
 KPre == ABin("^=", AKey, AStr(<<107>>))
 MatrixStmts == {
   Select(<<>>, KPre, <<>>, <<>>, NoLim),
@@ -96,6 +98,21 @@ MatrixStmts == {
   Select(<<>>, AIn(AKey, <<AStr(k1), AStr(k3), AStr(<<122, 122>>)>>), <<>>, <<>>, NoLim),
   Select(<<>>, ABin("=", AVal, AStr(<<118, 49>>)), <<>>, <<>>, NoLim),
   Select(<<>>, ABool(FALSE), <<>>, <<>>, NoLim),
+  Select(<<>>, ABin("<", AKey, AStr(k3)), <<>>, <<>>, NoLim),
+  Select(<<>>, ABin("<=", AKey, AStr(k5)), <<>>, <<>>, Lim(0, 2)),
+  Select(<<>>, ABin(">", AKey, AStr(k2)), <<>>, <<>>, NoLim),
+  Select(<<>>, ABin(">=", AStr(k3), AKey), <<>>, <<>>, NoLim),
+  Select(<<>>, ABetween(AKey, AStr(k2), AStr(k5)), <<>>, <<>>, NoLim),
+  Select(<<>>, ABin("|", ABin("^=", AKey, AStr(k1)), ABin("=", AKey, AStr(k3))), <<>>, <<>>, NoLim),
+  Select(<<>>, ABin("&", ABin("^=", AKey, AStr(<<107>>)), ABin("~=", AVal, AStr(<<94, 118>>))), <<>>, <<>>, NoLim),
+  Select(<<>>, ABin("=", AKey, AStr(k2)), <<>>, <<>>, NoLim),
+  Select(<<F(AKey, ""), F(Call1("strlen", AVal), "n")>>, ABin("&", ABin("<", AKey, AStr(k5)), ABin(">", AName("n"), AInt(0))), <<[f |-> 2, desc |-> FALSE]>>, <<>>, Lim(1, 2)),
+  Select(<<F(AVal, "g"), F(Call1("count", AInt(1)), "c")>>, ABin("<", AKey, AStr(k5)), <<[f |-> 2, desc |-> TRUE]>>, <<1>>, NoLim),
+  Delete(ABin("<", AKey, AStr(k3)), NoLim),
+  Delete(ABin(">", AKey, AStr(k2)), Lim(0, 2)),
+  Delete(ABin("<=", AKey, AStr(k5)), Lim(1, 1)),
+  Delete(ABetween(AKey, AStr(k1), AStr(k3)), NoLim),
+  Delete(ABool(FALSE), NoLim),
   Select(<<F(AKey, ""), F(ACall("upper", <<AVal>>), "u")>>, ABin("^=", AName("u"), AStr(<<86>>)), <<>>, <<>>, NoLim),
   Select(<<>>, KPre, <<[f |-> 2, desc |-> TRUE]>>, <<>>, NoLim),
   Select(<<>>, KPre, <<>>, <<>>, Lim(1, 3)),
